@@ -85,6 +85,36 @@ def tabulate (s : State) : PGraph :=
 def AllGrouped (s : State) : Prop := ∀ h, h < s.size → s.alive h = true → (s.grp h).isSome = true
 instance (s : State) : Decidable (AllGrouped s) := by unfold AllGrouped; infer_instance
 
+/-- The node-group tree (`NodeGroup::m_parent`, `m_children`), evaluated on the dumps (not part of the proved model):
+every child slot holds a group of this circuit whose parent pointer points back; every group except the root has a parent that lists
+it exactly once (so every group is listed exactly once overall); following parent pointers reaches the root (no cycles).
+`tree[g] = (parent, child slots)`, a null or foreign pointer is `deadHandle`. -/
+def groupTreeViolations (tree : Array (Option Nat × List Nat)) : List String := Id.run do
+  let n := tree.size
+  let mut v : List String := []
+  for g in [0:n] do
+    let (par, ch) := tree.getD g (none, [])
+    for c in ch do
+      if c ≥ n then v := v ++ [s!"group{g}:child-slot-null-or-foreign"]
+      else if (tree.getD c (none, [])).1 != some g then v := v ++ [s!"group{g}:child{c}-parent-not-back"]
+    match par with
+    | none => if g != 0 then v := v ++ [s!"group{g}:no-parent"]
+    | some p =>
+      if g == 0 then v := v ++ ["root-has-parent"]
+      else if p ≥ n then v := v ++ [s!"group{g}:parent-dangling"]
+      else if ((tree.getD p (none, [])).2.count g) != 1 then v := v ++ [s!"group{g}:listed-{((tree.getD p (none, [])).2.count g)}-times-by-parent"]
+    -- no cycle: the root is reached within n steps
+    let mut cur := g
+    let mut ok := false
+    for _ in [0:n + 1] do
+      if cur == 0 then ok := true
+      else
+        match (tree.getD cur (none, [])).1 with
+        | some p => cur := if p < n then p else cur
+        | none => pure ()
+    if !ok then v := v ++ [s!"group{g}:does-not-reach-root"]
+  return v
+
 /-- node kinds whose inputs carry a type requirement -/
 inductive NKind where
   | sig | logic | arith | cmp | mux | reg | shift | prio
